@@ -412,7 +412,7 @@ fn shapes(r: &mut Rng) -> Shape {
     let x = *r.pick(&srcs);
     let y = *r.pick(&srcs);
     let tx = *r.pick(&tabs);
-    let k = r.below(30);
+    let k = r.below(33);
     let sel = |name: &'static str, sql: String, fp: Fp| Shape { name, sql, kind: "select", target: None, fp };
     match k {
         0 => sel("scan", format!("SELECT * FROM {}", x), src(x)),
@@ -450,6 +450,9 @@ fn shapes(r: &mut Rng) -> Shape {
         26 => Shape { name: "delete_where_in_subquery", sql: format!("DELETE FROM {} WHERE a IN (SELECT a FROM {})", tx, y), kind: "delete", target: Some(tx), fp: src(y) },
         27 => Shape { name: "delete_where_exists", sql: format!("DELETE FROM {} WHERE EXISTS (SELECT 1 FROM {} AS q WHERE q.a = {}.a)", tx, y, tx), kind: "delete", target: Some(tx), fp: src(y) },
         28 => Shape { name: "delete_plain", sql: format!("DELETE FROM {} WHERE a = 1", tx), kind: "delete", target: Some(tx), fp: Fp::None },
+        29 => sel("count_star_order_by", format!("SELECT COUNT(*) FROM {} ORDER BY 1", tx), src(tx)),
+        30 => sel("count_star", format!("SELECT COUNT(*) FROM {}", tx), src(tx)),
+        31 => sel("count_star_limit", format!("SELECT COUNT(*) FROM {} LIMIT 1", tx), src(tx)),
         _ => Shape { name: "delete_all", sql: format!("DELETE FROM {}", tx), kind: "delete", target: Some(tx), fp: Fp::None },
     }
 }
@@ -738,6 +741,8 @@ fn main() {
         Shape { name: "probe_insert_select_cols", sql: "INSERT INTO W (a, b) SELECT a, b FROM U".into(), kind: "insert", target: Some("W"), fp: src("U") },
         Shape { name: "probe_update_subquery", sql: "UPDATE W SET b = 'hit' WHERE a IN (SELECT a FROM U)".into(), kind: "update", target: Some("W"), fp: src("U") },
         Shape { name: "probe_delete_subquery", sql: "DELETE FROM W WHERE a IN (SELECT a FROM U)".into(), kind: "delete", target: Some("W"), fp: src("U") },
+        Shape { name: "probe_count_star_order_by", sql: "SELECT COUNT(*) FROM U ORDER BY 1".into(), kind: "select", target: None, fp: src("U") },
+        Shape { name: "probe_count_star", sql: "SELECT COUNT(*) FROM U".into(), kind: "select", target: None, fp: src("U") },
         Shape { name: "probe_aggregate", sql: "SELECT COUNT(*), SUM(a) FROM U".into(), kind: "select", target: None, fp: src("U") },
         Shape { name: "probe_join", sql: "SELECT p.a FROM T AS p JOIN U AS q ON p.a = q.a".into(), kind: "select", target: None, fp: both(src("T"), src("U")) },
     ];
